@@ -38,7 +38,13 @@ def base_docs():
     d4 = SCHEMA(keytype="identifier",
                 types=[TYPE("t1", [K("Key1"), MK("more", "integer")], keytype="identifier")],
                 children=[K("Top", "boolean"), MSEC("t1", "*", "ones"), SEC("t1", "+", "named")])
-    return [d1, d2, d3, d4]
+    # derived types: what a type inherits it inherits with its handler, also when it declares nothing of its own
+    d5 = SCHEMA(types=[TYPE("server", [K("addr"), MK("alias"), K("limit", "integer")]),
+                       TYPE("web", [], extends="server"),
+                       TYPE("mail", [K("relay")], extends="server"),
+                       TYPE("farm", [MSEC("server", "*", "plain"), MSEC("web", "+", "webs"), SEC("mail", "*", "mail")])],
+                children=[MSEC("farm", "*", "farms"), SEC("web", "*", "web"), K("title")])
+    return [d1, d2, d3, d4, d5]
 
 
 def with_handlers(rng, doc, p):
@@ -193,7 +199,7 @@ def run(chk):
             d = with_handlers(rng, b, rng.choice([0.2, 0.5, 0.8, 1.0]))
             if schemas.valid_doc(d) is not None:
                 docs.append(d)
-    chk.rule = ("4 base schemas (nesting depth 3, multisections, abstract slots, wrapping section datatypes, a case-sensitive key type) x %d random "
+    chk.rule = ("5 base schemas (derived types among them; nesting depth 3, multisections, abstract slots, wrapping section datatypes, a case-sensitive key type) x %d random "
                 "placements of handler attributes on subsets of all items and the schema x %d random texts, 30%% of them with 1..2 command-line overrides, a quarter of the others cut into 1..3 included resources (conforming "
                 "generator; rejected ones count as trivial) x handler maps {complete (with upper-cased names), each name "
                 "missing, each name mapped to None, each name duplicated in another case, each name supplied only in two non-normalised spellings}; non-trivial = accepted text with "
